@@ -5,17 +5,18 @@
  * asserted after the operation, and is established by m_map_new()+API (map_script.c), the step covers operation
  * histories of any length that stay at this table size.  Growth is cut here (VF_NO_REHASH) and is map_grow.c's job.
  *
+ * Operations: 0 get, 1 contains, 2 len, 3 remove, 4 put (no growth), 5 clear, 6 free.
  * Post-condition against the present[]/value[] model, seen through the public API (get for every key + len),
  * destructor log by value identity, key-buffer log for maps that own their keys.
  * -DOPS=<mask> restricts the menu of operations (case split), -DKEYMODE=<0|1|2> to one key ownership mode. */
 #include "map_common.h"
 
-static map_elem table[TS];
-static struct _map M;
+#define M (vf_map_arena)      /* the map object and its table live in the allocator's arenas, so op 6 can free them */
+#define TBL vf_tbl_a0
 static char putkey[KEYLEN];
 
 #ifndef OPS
-#define OPS 0x3f             /* bit n set: operation n is in the menu */
+#define OPS 0x7f             /* bit n set: operation n is in the menu */
 #endif
 #define OP_ON(n) ((OPS >> (n)) & 1)
 
@@ -26,12 +27,13 @@ int vf_main(void) {
     VF_PICK_KEYMODE(keymode);
     bool upd = nondet_bool();
     bool with_dtor = nondet_bool();
-    vf_build(&M, table, keymode, upd, with_dtor);
+    vf_map_handed = 1; vf_tbl_next = 1;
+    vf_build(&M, TBL, keymode, upd, with_dtor);
     int pre_ka[NK];
-    for (int k = 0; k < NK; k++) pre_ka[k] = (keymode && mo_present[k]) ? ka_index(table[slot_of[k]].key) : -1;
+    for (int k = 0; k < NK; k++) pre_ka[k] = (keymode && mo_present[k]) ? ka_index(TBL[slot_of[k]].key) : -1;
     const int pre_ka_n = ka_n;
 
-    VF_PICK(op, 6);
+    VF_PICK(op, 7);
     VF_ASSUME(OP_ON(op));
     VF_PICK(k, NK);
     int r;
@@ -103,6 +105,20 @@ int vf_main(void) {
         }
         VF_WITNESS("clear");
         break;
+#endif
+#if OP_ON(6)
+    case 6: { /* free: nothing to observe through the API afterwards */
+        m_map_t *mp = &M;
+        r = m_map_free(&mp);
+        VF_CHECK(r == 0 && mp == NULL, "free succeeds and clears the handle");
+        for (int j = 0; j < NK; j++) if (mo_present[j]) {
+            mo_dt[mo_val[j]]++; mo_present[j] = false;
+            if (keymode) VF_CHECK(ka_freed[pre_ka[j]] == 1, "free releases every owned key once");
+        }
+        VF_CHECK(vf_tbl_freed[0] == 1 && vf_map_freed == 1, "free releases the table and the map object, once each");
+        vf_check_dtors();
+        VF_WITNESS("free");
+        return 0; }
 #endif
     }
     if (keymode == 0) VF_CHECK(ka_n == 0, "a map without M_MAP_KEY_DUP never allocates keys");
